@@ -530,6 +530,9 @@ impl W2State {
                         self.c12r.request_stale = false;
                         let st = self.station.verif_view().state;
                         self.c12r.expect_reply = (st.starts_with("ListenToken") || st.starts_with("ActiveIdle")) && self.bus.pending(0, t_send) == 0;
+                        if self.verbose {
+                            println!("      (status request delivered while the station is in {st}: reply expected = {})", self.c12r.expect_reply);
+                        }
                     } else if let Some((_, e, _, _)) = self.c12r.last_delivery.as_mut() {
                         // other traffic after the request: timing of a late reply is not judged
                         *e = i64::MAX / 4;
